@@ -46,6 +46,24 @@ fn case(rec: &mut Rec, ctx: &Ctx, idx: u64, rng: &mut ChaCha20Rng) {
   let rep = |extra: serde_json::Value| json!({"case": idx, "t": t, "message": hex_short(&m), "coins": hex_short(&r), "extra": extra});
 
   let n = if t == 0 { 4 } else { (t as usize) + 2 };
+  // transcript separation must not depend on what was shared before on this thread:
+  // in half of the cases the foreign-transcript sharing of the SAME (t, M, R) comes first
+  let foreign_tr = {
+    let mut tr = Strobe::new(b"some other protocol", SecParam::B128);
+    if rng.gen_bool(0.5) {
+      tr.ad(&rand_bytes(rng, 8), false);
+    }
+    tr
+  };
+  let foreign_first = idx % 2 == 1 && t >= 1;
+  let mut foreign_pre: Vec<Share> = Vec::new();
+  if foreign_first {
+    for _ in 0..t {
+      if let Ok(s) = Commune::new(t, m.clone(), r.clone(), Some(foreign_tr.clone())).share() {
+        foreign_pre.push(s);
+      }
+    }
+  }
   let mut shares: Vec<Share> = Vec::new();
   for _ in 0..n {
     rec.ev("share");
@@ -186,13 +204,10 @@ fn case(rec: &mut Rec, ctx: &Ctx, idx: u64, rng: &mut ChaCha20Rng) {
     }
   }
   // --- transcript separation
-  if idx % 3 == 0 {
-    let mut tr = Strobe::new(b"some other protocol", SecParam::B128);
-    if rng.gen_bool(0.5) {
-      tr.ad(&rand_bytes(rng, 8), false);
-    }
-    let mut foreign: Vec<Share> = Vec::new();
-    for _ in 0..t {
+  if idx % 3 == 0 || foreign_first {
+    let tr = foreign_tr.clone();
+    let mut foreign: Vec<Share> = foreign_pre.clone();
+    while foreign.len() < t as usize {
       match Commune::new(t, m.clone(), r.clone(), Some(tr.clone())).share() {
         Ok(s) => foreign.push(s),
         Err(_) => return,
@@ -201,6 +216,21 @@ fn case(rec: &mut Rec, ctx: &Ctx, idx: u64, rng: &mut ChaCha20Rng) {
     rec.ev("recover_foreign_transcript");
     if let Some(Ok(mm)) = quiet(rec, || recover(&foreign).map(|c| c.get_message()).map_err(|e| e.to_string())) {
       rec.violation("foreign-transcript-accepted", format!("shares created under a different authenticated transcript recovered {}", hex_short(&mm)), rep(json!({})));
+    }
+    // one genuine share first, completed with shares made under the foreign transcript
+    // (asserted with >= 16 authenticated bytes only: with |M|+|R| = 0 a wrong key has
+    // nothing to decrypt and the genuine MAC verifies legitimately - soundness rule 2)
+    if t >= 2 && ml + rl >= 16 {
+      let mut mixed: Vec<Share> = vec![shares[0].clone()];
+      mixed.extend(foreign.iter().take(t as usize - 1).cloned());
+      rec.ev("recover_mixed_transcripts");
+      if let Some(Ok(mm)) = quiet(rec, || recover(&mixed).map(|c| c.get_message()).map_err(|e| e.to_string())) {
+        rec.violation(
+          "foreign-transcript-shares-combine",
+          format!("one genuine share plus t-1 shares created under a different authenticated transcript recovered {}", hex_short(&mm)),
+          rep(json!({"foreign_first": foreign_first})),
+        );
+      }
     }
   }
   if idx < 2 {
